@@ -66,7 +66,7 @@ CHECKS = {
    note="Trusted: the simulator's reading of what a server reveals (stated in evidence assumptions); replies reflect ground truth at emission time, views are updated in emission order.", ref="§4 C13"),
 }
 
-YIELD = ["C03","C04","C05","C06","C07","C09","C13","C14","C15","C16","C17"]
+YIELD = ["C03","C04","C05","C06","C07","C09","C13","C14","C15","C16","C17","C19"]
 for _p in YIELD:
     CHECKS[_p]["tech"] += "; schedule perturbation: part of the batches run against a scratch copy of the library rewritten to pass a seed-controlled yield point before every statement (harness/cmd/perturb)"
     CHECKS[_p]["text"] += " Some batches (y-*) run the same workload against a mechanically rewritten scratch copy of /repo's working tree in which a seed-chosen subset of the ~1000 statement boundaries of client/ and state/ yields the processor or sleeps some microseconds; evidence counts the points passed, fired and the distinct sites reached."
